@@ -95,7 +95,7 @@ func (s *NotifyFollowReader) Read(buf []byte) (int, error) {
 			}
 		case <-s.eventDelete:
 			if s.ReOpen {
-				s.closeFile()
+				s.reopenIfReplaced()
 			} else {
 				s.Close()
 				return 0, io.EOF
@@ -135,6 +135,16 @@ func (s *NotifyFollowReader) startWatcher() (*fsnotify.Watcher, error) {
 	}()
 
 	return watcher, nil
+}
+
+// reopenIfReplaced handles a delete signal in re-open mode. Signals coalesce and are received in
+// no particular order: the create signal of the replacement may already have been consumed while
+// the old file was still open, so the replacement is opened right away if it exists.
+func (s *NotifyFollowReader) reopenIfReplaced() {
+	s.closeFile()
+	if f, err := os.Open(s.filename); err == nil {
+		s.f = f
+	}
 }
 
 func (s *NotifyFollowReader) closeFile() {
